@@ -28,14 +28,30 @@ RULES = {
     "multipart, invalid UTF-8, unknown charsets. Every accessor of wsgi.Request and asgi.Request is probed; non-trivial = a probed "
     "header is present and is not one of the canonical valid samples, or the path/query/body is non-ASCII or mutated",
     "sweep": "enumerated: every value of the per-header dictionaries (valid and hostile, plus dates at the edges of the representable range with "
-    "every kind of zone) as the only header of a request, through every request accessor",
-    "body_sweep": "enumerated: every dictionary body (urlencoded incl. thousands of fields, malformed multipart, hostile JSON) under its matching content type, whole and in two "
-    "messages, and every urlencoded one as query string, through every request accessor",
-    "sweep_apps": "enumerated: the same single-header requests aimed at an existing file, a directory and a typed route of the bundled applications",
-    "apps": "Hypothesis: the same hostile paths/headers against Router (one route per convertor type), Subpaths, Hosts, Files, Pages and "
-    "FileResponse on both interfaces",
+    "every kind of zone; EXTRA: non-finite quality values, parameters with '=' in the value, RFC 2231 extended parameters, thousands of parameters, percent "
+    "escapes and refused names in cookies, Host with default / empty / edge ports and IPv6 literals, If-Match and If-Unmodified-Since) as the only header "
+    "of a request, through every request accessor",
+    "body_sweep": "enumerated: every dictionary body (urlencoded incl. 100001 separators, malformed multipart incl. a good part followed by a bad one, more than 324 parts, "
+    "header blocks / preambles beyond 64 KB, RFC 5987 parameters; hostile JSON incl. floats with 25-digit exponents) under its matching content type, and every "
+    "codec name x bodies that decode to lone surrogates / NUL under escape codecs and UTF-7, whole and in two messages, and every urlencoded one as query string, "
+    "through every request accessor",
+    "sweep_apps": "enumerated: the same single-header requests aimed at an existing file, a directory and a typed route of the bundled applications (Range values "
+    "also at an empty file)",
+    "apps": "Hypothesis: the same hostile paths/headers against Router (one route per convertor type), Subpaths, Hosts, Files, Pages, "
+    "FileResponse and their composition (Hosts -> Subpaths -> Files / Pages / Router / Subpaths; the views read request.url) on both interfaces",
     "parsers": "Hypothesis: parse_range, URL() and its properties / replace, parse_header, MediaType, ContentType, QueryParams and the event-level "
     "MultipartDecoder fed with hostile text/bytes directly",
+    "cuts": "enumerated: a handful of multipart bodies (text and file parts, CRLF / LF / CR line ends, preamble, extended parameters) delivered in two pieces "
+    "cut at EVERY offset and in pieces of 1, 2, 3, 5 bytes, once completely and once truncated at every offset (WSGI: input ends early; ASGI: the client "
+    "disconnects before the final message), plus truncated JSON / urlencoded bodies, through form / json and close() of both Request classes",
+    "pairs": "enumerated: header pairs that are only evaluated together, against an existing file through Files, Pages and FileResponse: Range x If-Range "
+    "(every date of the dictionaries, the file's own and near-miss validators; GET and HEAD), If-None-Match (matching, weak, lists with empty members) x "
+    "If-Modified-Since, If-Match / If-Unmodified-Since",
+    "path_sweep": "enumerated: every dictionary path plus near-misses of each convertor type (several dots, lone dot, 20-digit years, short months, non-ASCII digits, "
+    "4300/4301 digits), an empty file, a symbolic-link loop and a dangling link inside the served directory, through every bundled application and every "
+    "request accessor; directory URLs without the final slash (the Pages redirect) x every dictionary query string and Host value; every dictionary path "
+    "below every mount of the composed application; WSGI environs without the keys PEP 3333 makes optional (QUERY_STRING absent, SCRIPT_NAME / PATH_INFO / "
+    "CONTENT_* absent when empty, no client address)",
 }
 ASSUMPTIONS = [
     "allowed outcomes: a value, a response, HTTPException with 400 <= status < 500, ClientDisconnect, RuntimeError('Stream consumed')",
@@ -57,7 +73,12 @@ core.AFTER_FORK.append(_reset)
 def static_dir():
     global _DIR
     if _DIR is None:
-        _DIR = recipes.materialise({"index.html": b"<html>", "file.txt": b"hello world", "dir/index.html": b"<dir>", "dir/a.html": b"a", "é.txt": b"e"})
+        _DIR = recipes.materialise({"index.html": b"<html>", "file.txt": b"hello world", "dir/index.html": b"<dir>", "dir/a.html": b"a", "é.txt": b"e", "empty.txt": b""})
+        # entries a deployed directory may contain and a client may name: a symbolic-link loop (stat -> ELOOP) and a dangling link
+        for name, target in (("loop", "loop"), ("dangling", "nowhere"), ("dir/up", "../dir/up")):
+            link = os.path.join(_DIR, *name.split("/"))
+            if not os.path.lexists(link):
+                os.symlink(target, link)
     return _DIR
 
 
@@ -88,8 +109,27 @@ def escape(r: Result, entry: str, exc: BaseException, ctx: str) -> None:
 # probes
 
 
-def probe_wsgi_request(r, rq, ctx):
+def probe_url_value(v) -> None:
+    """What a view or a log line does with request.referrer: read its components, print it.  (Editing such a URL with
+    replace() is application logic on text the client chose, not a request accessor: `URL("////[x]/").replace(...)` raising
+    ValueError is urllib's refusal of the text, like URL(text) itself - not probed.)"""
+    for p in ("scheme", "netloc", "path", "query", "fragment", "hostname", "port", "username", "password"):
+        getattr(v, p)
+    str(v), v == "x", repr(v)
+
+
+def make_environ(rq, omit=()):
+    """The server model's environ; `omit` lists keys PEP 3333 lets a server leave out (QUERY_STRING when there is no query; SCRIPT_NAME and
+    PATH_INFO are only ever dropped when empty)."""
     env = gw.make_environ(rq)
+    for key in omit or ():
+        if key in ("REMOTE_ADDR", "REMOTE_PORT") or (key in ("QUERY_STRING", "SCRIPT_NAME", "PATH_INFO", "CONTENT_TYPE", "CONTENT_LENGTH") and not env.get(key)):
+            env.pop(key, None)
+    return env
+
+
+def probe_wsgi_request(r, rq, ctx, omit=()):
+    env = make_environ(rq, omit)
     req = W.Request(env)
     for name in ("method", "url", "headers", "query_params", "cookies", "content_type", "content_length", "accepted_types", "date", "referrer", "client", "path_params"):
         try:
@@ -99,9 +139,7 @@ def probe_wsgi_request(r, rq, ctx):
                     getattr(v, p)
                 str(v), repr(v)
             if name == "referrer" and v is not None:
-                for p in ("scheme", "netloc", "path", "hostname"):
-                    getattr(v, p)
-                repr(v)
+                probe_url_value(v)
             if name == "accepted_types":
                 [str(t) for t in v]
                 req.accepts("text/html")
@@ -113,7 +151,7 @@ def probe_wsgi_request(r, rq, ctx):
         except Exception as exc:  # noqa: BLE001
             escape(r, f"wsgi.Request.{name}", exc, ctx)
     for order in (("json", "form", "body"), ("form", "body", "json")):
-        env = gw.make_environ(rq)
+        env = make_environ(rq, omit)
         req = W.Request(env)
         for name in order:
             try:
@@ -128,7 +166,7 @@ def probe_wsgi_request(r, rq, ctx):
             req.close()
         except Exception as exc:  # noqa: BLE001
             escape(r, "wsgi.Request.close", exc, ctx)
-    env = gw.make_environ(rq)
+    env = make_environ(rq, omit)
     try:
         list(W.Request(env).stream())
     except Exception as exc:  # noqa: BLE001
@@ -147,9 +185,7 @@ def probe_asgi_request(r, rq, ctx):
                         getattr(v, p)
                     str(v), repr(v)
                 if name == "referrer" and v is not None:
-                    for p in ("scheme", "netloc", "path", "hostname"):
-                        getattr(v, p)
-                    repr(v)
+                    probe_url_value(v)
                 if name == "accepted_types":
                     [str(t) for t in v]
                     req.accepts("text/html")
@@ -189,14 +225,27 @@ def probe_asgi_request(r, rq, ctx):
     gw.run_sync(go())
 
 
+class _Ctx:
+    """Description of the request for failure messages, rendered only when a failure is reported (bodies can be 100 KB)."""
+
+    def __init__(self, rq) -> None:
+        self.rq = rq
+
+    def __str__(self) -> str:
+        return f"request {core.to_jsonable(self.rq)!r}"
+
+    def __getitem__(self, sl):
+        return str(self)[sl]
+
+
 def oracle_request(case) -> Result:
     r = Result()
     rq = case["request"]
-    ctx = f"request {core.to_jsonable(rq)!r}"
+    ctx = _Ctx(rq)
     r.nontrivial = bool(case.get("hostile"))
     for lab in case.get("labels", []):
         r.label(lab)
-    probe_wsgi_request(r, rq, ctx)
+    probe_wsgi_request(r, rq, ctx, case.get("omit_environ"))
     probe_asgi_request(r, rq, ctx)
     if not r.failures:
         r.label("outcome=clean")
@@ -210,6 +259,7 @@ def _ok_app(side):
         def app(environ, start_response):
             req = W.Request(environ)
             _ = req.path_params
+            _ = req.url, req.query_params  # what a view behind a router / mount typically looks at first
             start_response("200 OK", [])
             return [b"ok"]
 
@@ -218,6 +268,7 @@ def _ok_app(side):
     async def app(scope, receive, send):
         req = A.Request(scope, receive, send)
         _ = req.path_params
+        _ = req.url, req.query_params
         await send({"type": "http.response.start", "status": 200, "headers": []})
         await send({"type": "http.response.body", "body": b"ok"})
 
@@ -236,33 +287,40 @@ def build_apps(side):
         "files": M.Files(d),
         "pages": M.Pages(d),
         "fileresponse": lambda: M.FileResponse(os.path.join(d, "file.txt"), chunk_size=4),
+        # the same applications composed the way they are deployed: host dispatch -> mounts -> static files / pages / typed routes / a mount in a mount
+        "nested": M.Hosts((r".*", M.Subpaths(
+            ("/static", M.Files(d)), ("/p", M.Pages(d)),
+            ("/r", M.Router(("/i/{p:int}", ok), ("/d/{p:decimal}", ok), ("/t/{p:date}", ok), ("/u/{p:uuid}", ok), ("/s/{p}", ok), ("/a/{p:any}", ok), ("/", ok))),
+            ("/\xe9", M.Subpaths(("/x", M.Pages(d)), ("", ok))), ("", ok)))),
     }
 
 
 def oracle_apps(case) -> Result:
     r = Result()
     rq = case["request"]
-    ctx = f"request {core.to_jsonable(rq)!r}"
+    ctx = _Ctx(rq)
     r.nontrivial = bool(case.get("hostile"))
     for lab in case.get("labels", []):
         r.label(lab)
     for side in ("wsgi", "asgi"):
         apps = build_apps(side)
         for name, app in apps.items():
+            if case.get("apps") and name not in case["apps"]:
+                continue
             if name == "fileresponse":
                 try:
                     app = app()
                 except Exception as exc:  # noqa: BLE001
                     escape(r, f"{side}.FileResponse()", exc, ctx)
                     continue
-            run = gw.call_wsgi(app, rq) if side == "wsgi" else gw.call_asgi(app, rq)
+            run = gw.run_wsgi(app, make_environ(rq, case.get("omit_environ"))) if side == "wsgi" else gw.call_asgi(app, rq)
             if run.exc is not None:
                 escape(r, f"{side}.{name}", run.exc, ctx)
             elif run.status_code is not None and run.status_code >= 500:
                 r.fail(f"C12:{side}:{name}:answered-{run.status_code}", ctx)
     if not r.failures:
         r.label("outcome=clean")
-    r.weight = 12
+    r.weight = 2 * len(case["apps"]) if case.get("apps") else 14
     return r
 
 
@@ -283,9 +341,16 @@ def oracle_parsers(case) -> Result:
                 # URL() on a string of its own choice - not one of the request accessors
                 r.label("outcome=url-ctor-valueerror")
                 return r
+            try:
+                u.port
+            except ValueError:
+                # same contract, parsed lazily: urlsplit reports an unusable port only when it is read; repr() / replace() of such
+                # a URL read it.  For text the application passes itself that is allowed (request.referrer must not hand it out).
+                r.label("outcome=url-port-valueerror")
+                return r
             for p in ("scheme", "netloc", "path", "query", "fragment", "username", "password", "hostname"):
                 getattr(u, p)
-            str(u), repr(u), u == text
+            str(u), u == text, repr(u)
         elif kind == "parse_header":
             parse_header(text)
             MediaType(text).match("text/html")
@@ -317,7 +382,78 @@ def oracle_parsers(case) -> Result:
     return r
 
 
-SUBS = {"request": oracle_request, "apps": oracle_apps, "parsers": oracle_parsers, "sweep": oracle_request, "sweep_apps": oracle_apps, "body_sweep": oracle_request}
+def oracle_cuts(case) -> Result:
+    """One body, one partition, one accessor (form / json) on both Request classes.  `truncated`: the body ends
+    early - the WSGI input simply runs dry, the ASGI client disconnects before the final message (the documented
+    ClientDisconnect is then an allowed outcome, like everywhere else)."""
+    r = Result()
+    chunks = [bytes(c) for c in case["chunks"]]
+    accessor = case.get("accessor", "form")
+    truncated = bool(case.get("truncated"))
+    rq = gw.areq(method="POST", headers=[["Content-Type", case["ctype"]]], body=chunks, query=b"", path_bytes=b"/", path="/")
+    ctx = f"{accessor} of {core.to_jsonable(chunks)!r} under {case['ctype']!r}" + (" then EOF / disconnect" if truncated else "")
+    r.nontrivial = True
+    for lab in case.get("labels", []):
+        r.label(lab)
+
+    req = W.Request(gw.make_environ(rq))
+    try:
+        v = getattr(req, accessor)
+        if accessor == "form":
+            for _, item in v.multi_items():
+                if not isinstance(item, str):
+                    item.read()
+    except Exception as exc:  # noqa: BLE001
+        escape(r, f"wsgi.Request.{accessor}", exc, ctx)
+    try:
+        req.close()
+    except Exception as exc:  # noqa: BLE001
+        escape(r, "wsgi.Request.close", exc, ctx)
+
+    async def go():
+        parts = chunks or [b""]
+        script = [{"type": "http.request", "body": c, "more_body": truncated or i < len(parts) - 1} for i, c in enumerate(parts)]
+        it = iter(script)
+
+        async def receive():
+            try:
+                return dict(next(it))
+            except StopIteration:
+                return {"type": "http.disconnect"}
+
+        areq_ = A.Request(gw.make_scope(rq), receive)
+        try:
+            v = await getattr(areq_, accessor)
+            if accessor == "form":
+                for _, item in v.multi_items():
+                    if not isinstance(item, str):
+                        await item.aread()
+        except Exception as exc:  # noqa: BLE001
+            escape(r, f"asgi.Request.{accessor}", exc, ctx)
+        try:
+            await areq_.close()
+        except Exception as exc:  # noqa: BLE001
+            escape(r, "asgi.Request.close", exc, ctx)
+
+    gw.run_sync(go())
+    if not r.failures:
+        r.label("outcome=clean")
+    r.weight = 2
+    return r
+
+
+def oracle_both(case) -> Result:
+    """The bundled applications and the request accessors for the same request (path sweep)."""
+    r = oracle_apps(case)
+    r2 = oracle_request(case)
+    r.failures.extend(r2.failures)
+    r.labels.extend(lab for lab in r2.labels if lab.startswith("outcome="))
+    r.weight += r2.weight
+    return r
+
+
+SUBS = {"request": oracle_request, "apps": oracle_apps, "parsers": oracle_parsers, "sweep": oracle_request, "sweep_apps": oracle_apps, "body_sweep": oracle_request,
+        "cuts": oracle_cuts, "pairs": oracle_apps, "path_sweep": oracle_both}
 
 # ------------------------------------------------------------------------------------------
 # generators
@@ -378,6 +514,57 @@ CODEC_NAMES = ["undefined", "punycode", "idna", "hex", "hex_codec", "base64", "z
                "a" * 300, "utf_8;x", "\xe9"]
 
 
+# Further dictionary values.  They live apart from VALID / HOSTILE because the Atheris target (fuzz/targets.py) indexes those two
+# tables when it decodes stored inputs: their keys and list lengths must stay as they are for the committed replays to keep their meaning.
+# EXTRA values are swept exhaustively (sweep / sweep_apps) and drawn by the random requests like the HOSTILE ones.
+EXTRA = {
+    # quality values that are numbers but not finite / not small, parameters whose value contains '=', thousands of (empty) parameters
+    # and members (an 8 KB header line is what common servers accept)
+    "Accept": ["text/html;q=inf", "text/html;q=1e999", "text/html;q=-inf", "text/html;q=nan", "text/html;q=-1", "text/html;q=1e-999", "*/*;q=٣", "text/html;q=Infinity, */*;q=0.1",
+               'text/html;q="0.5"', "text/html; q = 0.5", "text/html;q=0x1p3", "text/html;q=1_0", ";" * 8000, "," * 8000, "a/b" + ";c=d" * 2000, 'a/b;c="d=e"', "a/b;c=d=e", "a/b;c==",
+               "a/b;=", "a/b/c", "a/b;c", 'a/b;c="' + ";" * 4000, "*/*, " * 1500 + "a/b", "text/html;q*=utf-8''0.5", "text/html;q*0=0;q*1=.5", "text/html;level*=nope'x'%ff"],
+    "Content-Type": ['multipart/form-data; boundary="a=b"', "multipart/form-data; boundary=----x==", "multipart/form-data; boundary=b=", "application/json; charset=utf-8=x",
+                     "application/json; charset==", ";" * 8000, "application/json" + ";a=b" * 2000, "application/x-www-form-urlencoded" + ";" * 8000, 'multipart/form-data; boundary=b' + ";x" * 4000,
+                     'application/json; charset="utf-8"', 'application/json; charset=" utf-8"', "Application/JSON", "application/json ;charset=utf-8", "application/json;charset",
+                     'multipart/form-data; boundary=b; boundary=c', "multipart/form-data; BOUNDARY=b", 'multipart/form-data; boundary="b\\"', "multipart/form-data; boundary=" + "b" * 3000,
+                     "application/x-www-form-urlencoded; charset=utf-8; charset=nope", "application/json; charset=utf-8-sig", "application/json; charset=utf_8", "application/json; charset=UTF8",
+                     # RFC 2231 extended / continued parameters (stdlib header parsers hand these out as tuples)
+                     "multipart/form-data; boundary*=utf-8''b", "multipart/form-data; boundary*0=b; boundary*1=c", "multipart/form-data; boundary=b; charset*=utf-8''utf-8", "application/json; charset*=utf-8''utf-8",
+                     "application/json; charset*=nope''%ff", "application/x-www-form-urlencoded; charset*0*=utf-8''utf; charset*1=-8", "multipart/form-data; boundary*=''", "multipart/form-data; boundary*=x"],
+    # percent escapes, names the stdlib cookie jar refuses, reserved attribute names, values with '=', two headers joined by the server
+    "Cookie": ["a=%ff", "a=%", "a=%zz", "a=%E4%B8", "%ff=1", "a=%00", "a=%u00e9", 'a="%ff"', "a=%25ff", "a(b=1", "a,b=1", "a/b=1", "a@b=1", "\xe9=1", "a b=1", "a[0]=1", "a{b}=1", "a:b=1", "a\\b=1",
+               "$Version=1; a=1; $Path=/", "path=/; a=1", "expires=x; max-age=y; a=1", "domain=; secure; httponly", "a=b=c", "a==", "a=1;;b=2", 'a="b;c"', "a=1, b=2", "a=1,b=2; c", "a=\t1", "=a", "a=1; a=2; A=3",
+               "a=" + "%ff" * 1000, 'a="\\\\\\""', "a=\x7f", "a=\x00"],
+    # the scheme's default port, empty port, IPv6 literals with and without port / zone, ports at the edges, upper case, trailing dot
+    "Host": ["[::1]:80", "example.com:80", "[::1]:443", "[::1]:", "example.com:", "EXAMPLE.COM:080", "[::ffff:1.2.3.4]:80", "example.com:0", "example.com:65535", "example.com:65536", "[fe80::1%25eth0]:80",
+             "[fe80::1%eth0]", "[::1]", "[::]:80", "example.com.:80", "example.com:00080", "example.com:80:80", "[::1]:80x", "[::1]80", "[:80", "1.2.3.4:80", "xn--nxasmq6b.example:80", "\xe9.example:80",
+             "example.com:\u0663".encode("utf-8").decode("latin-1"), "example.com, example.org", "example.com:80, example.com:80"],
+    "Range": ["bytes=5-4", "bytes=-0", "bytes=0-0", "bytes=10-", "bytes=11-", "bytes=0-10", "bytes=0-11", "bytes= 0-4", "bytes=0 - 4", "BYTES=0-4", "bytes=0-4,", "bytes=,", "bytes=0-4;q=1", "bytes=\xb2-\xb3",
+              "bytes=0-1,3-4,6-7,9-10", "bytes=9-10,0-1", "bytes=0-0,-1", "bytes==0-4", "bytes=0-4=", "items=0-4"],
+    "If-None-Match": ['""', '" "', "W/\"\"", "w/\"abc\"", '"abc', 'abc"', '"a","b"' * 500, "*" * 3000, "W/" * 1500, '"\\""', "W/*", " , ,", '"abc"; x'],
+    "Referer": ["http://a:b@[::1]x/", "http://u@[::]y/", "//a:b@[::1]x", "http://a:b@[::1]x:80/", "////[x]/", "////[", "x:////a:b/", "http://a:b@h:80/", "http://a:b@[::1]:80/", "http://a:b@h:/", "http://:b@h/", "http://a:@h/", "http://a%40b:c%3Ad@h/", "http://a:b:c@h/", "//a:b@h", "a:b@h", "http://a:" + "b" * 3000 + "@h/",
+                "http://\xe9:\xe9@\xe9/", "http://a:b@h/?x=y#z", "http://a:b@H:080/",
+                # user info together with a port urlsplit cannot convert (repaired by 285eec6: such a Referer is no URL; regression reg-referer-unusable-port)
+                "http://a:b@h:99999/", "http://a:b@h:x/", "http://a:b@h:-1/", "http://a:b@[::1]:65536/", "http://:x@b@c:d/", "http://u@h:99999/", "http://h:99999/", "//a:b@h:65536", "http://a:b@h:\xb2/",
+                "http://a:b@h: 80/", "http://a:b@h:80 /", "http://a:b@h:+80/", "http://a:b@h:8_0/"],
+}
+# conditional headers no baize code looks at today; an application in front of the files may well (and a change that starts to must be seen)
+EXTRA_NAMES = {
+    "If-Match": ["", " ", "*", '"abc"', "x", ",", 'W/"abc"', "\xff", '"a", "b"', "* , *"],
+    "If-Unmodified-Since": ["", " ", "x", "Wed, 21 Oct 2015 07:28:00 GMT", "Wed, 21 Oct 2015 07:28:00 -" + "9" * 50, "Fri, 31 Dec 9999 23:59:59 -0100", "Wed, 21 Oct 2015 07:28:00", "0"],
+}
+
+
+_LONG_EXTRA = {v for vs in EXTRA.values() for v in vs if len(v) > 1000}
+
+
+def pool(name: str, valid: bool = True):
+    """All dictionary values of one header name."""
+    if name in EXTRA_NAMES:
+        return list(EXTRA_NAMES[name])
+    return (list(VALID[name]) if valid else []) + list(HOSTILE[name]) + list(EXTRA.get(name, []))
+
+
 def mutate(draw, s: str) -> str:
     kind = draw(st.integers(0, 7))
     if not s:
@@ -396,19 +583,42 @@ def mutate(draw, s: str) -> str:
     if kind == 5:
         return s[:i] + draw(_noise) + s[i:]
     if kind == 6:
-        return s * draw(st.sampled_from([2, 50]))
+        # (EXTRA values that are already an 8 KB header line are only doubled: servers refuse header lines far below 400 KB, and
+        # `_parseparam` copies the rest of the line once per parameter - a cost issue, not this property)
+        return s * (draw(st.sampled_from([2, 50])) if s not in _LONG_EXTRA else 2)
     return draw(st.sampled_from(["(" * 1000, "[" * 100000, "9" * 5000]))
 
 
-_paths = st.one_of(
-    st.sampled_from([b"/", b"", b"/file.txt", b"/dir/", b"/dir", b"/\xff", b"/\xc3", b"/\xe4\xb8", b"/\x00", b"/a\x00b", b"/" + b"a" * 300, b"/" + b"a/" * 200, b"/%", b"/%zz", b"/..",
+PATHS = [b"/", b"", b"/file.txt", b"/dir/", b"/dir", b"/\xff", b"/\xc3", b"/\xe4\xb8", b"/\x00", b"/a\x00b", b"/" + b"a" * 300, b"/" + b"a/" * 200, b"/%", b"/%zz", b"/..",
                      b"/../../etc/passwd", b"/file.txt/x", b"/file.txt/", b"/i/" + b"9" * 5000, b"/i/\xd9\xa3", b"/t/2021-13-45", b"/t/0000-00-00", b"/d/1x2", b"/d/1.", b"/d/" + b"9" * 400 + b"." + b"9" * 400,
                      b"/u/00000000-0000-0000-0000-000000000000", b"/u/" + b"g" * 36, b"/1-2021-02-30.5", b"/s/\xff", b"/a/\n", b"/\xc3\xa9.txt", b"/\xc3\xa9", b"/s", b"//", b"/a?b#c", b"*", b"http://x/y",
-                     b"/dir/\xff.html", b"/index.html/", b"/." * 100, b"/\\..\\", b"/C:\\x"]),
+                     b"/dir/\xff.html", b"/index.html/", b"/." * 100, b"/\\..\\", b"/C:\\x"]
+# near-misses of every convertor type, deployment oddities of the served directory, directory URLs without the final slash
+PATHS_EXTRA = [
+    b"/d/1.2.3", b"/d/.", b"/d/..", b"/d/1..2", b"/d/.5", b"/d/5.", b"/d/1.5.", b"/d/" + b"9" * 5000 + b".5", b"/d/0." + b"0" * 5000, b"/d/1e5", b"/d/1E+5", b"/d/-1.5", b"/d/+1.5", b"/d/1,5", b"/d/1_0.5",
+    b"/d/\xd9\xa3.\xd9\xa3", b"/d/NaN", b"/d/Infinity", b"/d/1.5/", b"/d/" + b"." * 300,
+    b"/i/-1", b"/i/+1", b"/i/1_0", b"/i/ 1", b"/i/1 ", b"/i/0x10", b"/i/" + b"9" * 4300, b"/i/" + b"9" * 4301, b"/i/" + b"0" * 5000, b"/i/1.0", b"/i/\xc2\xb2", b"/i/\xef\xbc\x91", b"/i/1\n", b"/i/",
+    b"/t/" + b"9" * 20 + b"-01-01", b"/t/99999-01-01", b"/t/10000-01-01", b"/t/2021-1-1", b"/t/2021-01-1", b"/t/2021-02-30", b"/t/2021-02-29", b"/t/2020-02-29", b"/t/9999-12-31", b"/t/0001-01-01", b"/t/2021-00-10",
+    b"/t/2021-10-00", b"/t/2021-99-99", b"/t/\xd9\xa2\xd9\xa0\xd9\xa2\xd9\xa1-\xd9\xa0\xd9\xa3-\xd9\xa0\xd9\xa7", b"/t/2021-03-07T00:00", b"/t/2021-03-07\n", b"/t/2021-" + b"9" * 30 + b"-07", b"/t/2021-03-" + b"9" * 30,
+    b"/t/20210307", b"/t/2021/03/07", b"/t/-2021-03-07", b"/t/2021--3-07",
+    b"/u/00000000-0000-0000-0000-00000000000G", b"/u/00000000-0000-0000-0000-00000000000", b"/u/0000000000000000000000000000000000000", b"/u/" + b"-" * 36, b"/u/{00000000-0000-0000-0000-000000000000}",
+    b"/u/urn:uuid:00000000-0000-0000-0000-000000000000", b"/u/ABCDEF00-0000-0000-0000-000000000000", b"/u/00000000-0000-0000-0000-000000000000\n", b"/u/" + b"f" * 5000,
+    b"/1-2021-02-03.1.2.3", b"/1-2021-02-03.", b"/" + b"9" * 5000 + b"-2021-02-03.5", b"/1-" + b"9" * 20 + b"-02-03.5", b"/1-2021-02-03.5.", b"/-2021-02-03.5", b"/1-2021-02-03", b"/1--.", b"/1-2021-2-3.4",
+    b"/a/" + b"x" * 5000, b"/s/" + b"x" * 5000, b"/s/a/b", b"/s/", b"/a/", b"/a", b"/s/%", b"/s/?", b"/s/#",
+    b"/loop", b"/loop/", b"/loop/x", b"/loop.html", b"/dangling", b"/dangling/", b"/dangling/x", b"/dir/up", b"/dir/up/x", b"/dir/up/", b"/empty.txt", b"/empty.txt/", b"/empty",
+    b"/dir/.", b"/dir/..", b"/dir//", b"//dir", b"/dir/../dir", b"/dir/./", b"/./dir", b"/dir/index.html", b"/dir/index.html/", b"/dir/index", b"/dir/a", b"/dir/a.html", b"/dir/a.html.html", b"/index", b"/index.html.html",
+    b"/\xc3\xa9/x", b"/\xc3\xa9/", b"/s/\xc3\xa9", b"/\xc3\xa9.txt/", b"/\xe9.txt", b"/e\xcc\x81.txt", b"/file.txt\x00", b"/file.txt\x00.html", b"/file.TXT", b"/file.txt.", b"/file.txt ", b"/ file.txt",
+    b"/s/\xe4\xb8\xad", b"/\xc3\xa9/\xe4\xb8\xad", b"/a/\xf0\x9f\x98\x80", b"/dir/\xe4\xb8\xad", b"/\xe4\xb8\xad", b"/\xe4\xb8\xad/", b"/s/\xed\xa0\x80", b"/s/\xc0\xaf", b"/\xef\xbb\xbfdir/",
+    b"/" + b"\xc3\xa9" * 128, b"/" + b"a" * 251, b"/" + b"a" * 255, b"/" + b"a" * 256, b"/" + b"a/" * 2100, b"/dir/" + b"a" * 250, b"/" + b"../" * 50 + b"etc/passwd", b"/%2e%2e/", b"/..%2f", b"/~", b"/~root",
+]
+_paths = st.one_of(
+    st.sampled_from(PATHS),
+    st.sampled_from(PATHS_EXTRA),
     st.binary(max_size=20).map(lambda b: b"/" + b),
 )
 _queries = st.one_of(
-    st.sampled_from([b"&" * 1500, b"a=1&" * 1200, b";" * 1500, b"", b"a=1", b"a=1&a=2", b"\xff", b"a=\xff&\xc3=1", b"%", b"%zz=%", b"=", b"&&&", b"a=" + b"9" * 5000, b"a" * 3000, b"\x00", b"a=b;c=d", b"?", b"#", b"a[]=1&a[]=2"]),
+    st.sampled_from([b"&" * 1500, b"a=1&" * 1200, b";" * 1500, b"", b"a=1", b"a=1&a=2", b"\xff", b"a=\xff&\xc3=1", b"%", b"%zz=%", b"=", b"&&&", b"a=" + b"9" * 5000, b"a" * 3000, b"\x00", b"a=b;c=d", b"?", b"#", b"a[]=1&a[]=2",
+                     b"a=%ff", b"\xc3\xa9=\xc3\xa9", b"//x", b"%00", b"a=%u00e9", b"\xe9"]),
     st.binary(max_size=20),
 )
 
@@ -424,6 +634,53 @@ MULTIPART_BAD_BODIES = [
     b"--b\r\nContent-Disposition: form-data; name=\"a\"\r\n \r\n\tx\r\n\r\ny\r\n--b--", b"--b\r\nA:1\r\n" * 300 + b"\r\nx\r\n--b--", b"\r\n--b--\r\n--b\r\n",
 ]
 JSON_BAD_BODIES = [b"", b"{", b"[" * 100000, b"9" * 5000, b'{"a": 1e999999}', b"\xff\xfe", b'"\\ud800"', b"nul", b"[1,]", b'{"a":' * 2000 + b"1" + b"}" * 2000, b"-" + b"9" * 4301, b"NaN", b"\xef\xbb\xbf{}", b'"\\u00"', b"{} x"]
+# floats at and beyond what float() / Decimal() represent (exponents of 20+ digits, thousands of fraction digits), non-finite constants
+JSON_BAD_BODIES += [b"1e" + b"9" * 25, b"-1E-" + b"9" * 25, b"[1.5e+9999999999999999999999]", b'{"a": 1E400, "b": -1e-400}', b"1." + b"0" * 5000 + b"1", b"0." + b"9" * 5000, b"1e+", b"1e", b"-", b"-0", b"Infinity",
+                    b"-Infinity", b'{"a": NaN}', b"[1e400, -1e400]", b"1" + b"0" * 400 + b".5", b"0e" + b"0" * 5000, b"1E" + b"0" * 4000 + b"5", b'{"a": {"a": 1e99999999999999999999}}', b"\xff\xfe1\x00", b"\x00"]
+_CD = b"--b\r\nContent-Disposition: form-data; "
+MULTIPART_BAD_BODIES += [
+    # a complete part followed by a malformed one (whatever ran for the first must cope with the failure of the second)
+    _CD + b'name="a"\r\n\r\n1\r\n--b\r\nno-colon-header\r\n\r\nx\r\n--b--',
+    _CD + b'name="a"\r\n\r\n1\r\n--b\r\nContent-Type: text/plain\r\n\r\nx\r\n--b--',
+    _CD + b'name="f"; filename="f.txt"\r\n\r\ndata\r\n--b\r\nno-colon-header\r\n\r\nx\r\n--b--',
+    _CD + b'name="a"\r\n\r\n1\r\n' + _CD + b'name="f"; filename="f.txt"\r\n\r\ndata\r\n--b\r\n: \r\n\r\nx\r\n--b--',
+    _CD + b'name="a"\r\n\r\n1\r\n' + _CD + b'name="b"\r\n\r\n2\r\n--b\r\nContent-Disposition\r\n\r\n3\r\n--b--',
+    # RFC 5987 / 2231 extended parameters, well-formed and not
+    _CD + b"name=\"f\"; filename*=utf-8''a%cc%81.txt\r\n\r\nx\r\n--b--",
+    _CD + b'name="f"; filename*=x\r\n\r\nx\r\n--b--',
+    _CD + b"name=\"f\"; filename*=nope''a%41\r\n\r\nx\r\n--b--",
+    _CD + b"name=\"f\"; filename*=utf-8'en'%ff%fe\r\n\r\nx\r\n--b--",
+    _CD + b"name=\"f\"; filename*=''\r\n\r\nx\r\n--b--",
+    _CD + b"name=\"f\"; filename*='\r\n\r\nx\r\n--b--",
+    _CD + b"name=\"f\"; filename*=utf-8'" + b"''%41\r\n\r\nx\r\n--b--",
+    _CD + b"name=\"f\"; filename=\"a.txt\"; filename*=\"utf-8''b.txt\"\r\n\r\nx\r\n--b--",
+    _CD + b"name*=utf-8''n%ff; filename*0=a; filename*1=b\r\n\r\nx\r\n--b--",
+    _CD + b"name=\"f\"; filename*=undefined''%41\r\n\r\nx\r\n--b--",
+    # parameter values with '=', header names in other cases, the header twice, transfer encodings, nested multipart, bare LF / CR
+    _CD + b'name="a=b"; filename="c=d=e"\r\n\r\nx\r\n--b--',
+    b"--b\r\ncontent-disposition: form-data; name=a=b\r\n\r\nx\r\n--b--",
+    b'--b\r\nCONTENT-DISPOSITION: form-data; name="a"\r\nContent-Disposition: form-data; name="b"\r\n\r\nx\r\n--b--',
+    _CD + b'name="a"\r\nContent-Transfer-Encoding: base64\r\nContent-Type: text/plain; charset=nope\r\n\r\n=====\r\n--b--',
+    _CD + b'name="_charset_"\r\n\r\nnope\r\n' + _CD + b'name="a"\r\n\r\n\xff\r\n--b--',
+    _CD + b'name="a"\r\nContent-Type: multipart/mixed; boundary=b\r\n\r\n--b\r\n\r\n--b--\r\n--b--',
+    b'--b\nContent-Disposition: form-data; name="a"\n\n1\n--b\nContent-Disposition: form-data; name="f"; filename="f"\n\n2\n--b--\n',
+    b'--b\rContent-Disposition: form-data; name="a"\r\r1\r--b--\r',
+    _CD + b'name="a"\r\n\r\n1\r\n--b--\r\n' + _CD + b'name="late"\r\n\r\n2\r\n--b--',
+    b'--b  \t\r\nContent-Disposition: form-data; name="a"\r\n\r\n1\r\n--b--  \t',
+    b"--b\r\nContent-Disposition:\r\n\r\nx\r\n--b--", b"--b\r\nContent-Disposition: \x00\r\n\r\nx\r\n--b--", _CD + b'name="a"\x0b\x0c\x1c\x85\r\n\r\nx\r\n--b--',
+]
+# bodies that are swept but not drawn by the random requests (cost): more separators than any field limit a parser may have, more parts
+# than the default `max_form_parts` (the documented 413) as text fields and as files, one very large field next to a file full of near-delimiters
+BIG_URLENC_BODIES = [b"&" * 100001, b"a&" * 12000, b"a=1;" * 11000]
+BIG_MULTIPART_BODIES = [
+    b"".join(_CD + b'name="f%d"\r\n\r\n%d\r\n' % (i, i) for i in range(330)) + b"--b--\r\n",
+    b"".join(_CD + b'name="f%d"; filename="%d.txt"\r\n\r\n%d\r\n' % (i, i, i) for i in range(330)) + b"--b--\r\n",
+    _CD + b'name="a"\r\n\r\n' + b"x" * 70000 + b"\r\n" + _CD + b'name="f"; filename="f"\r\n\r\n' + b"\r\n--" * 20000 + b"\r\n--b--",
+    # more than 64 KB where a parser may have a limit: one header line, many header lines (no blank line ever comes), a parameter, the
+    # preamble (no delimiter ever comes), an unterminated delimiter line
+    b"--b\r\nX-A: " + b"a" * 100000, b"--b\r\n" + b"X-A: a\r\n" * 12000, _CD + b'name="' + b"n" * 100000 + b'"\r\n\r\nx\r\n--b--', b"p" * 100000, b"\r\n" * 50000, b"--b" + b" " * 100000,
+    _CD + b'name="a"\r\n\r\n' + b"\r" * 100000,
+]
 
 
 def _bodies(draw, ctype: str):
@@ -464,16 +721,16 @@ def request_case(draw, for_apps=False):
     labels = []
     hostile = False
     headers = []
-    names = draw(st.lists(st.sampled_from(sorted(VALID)), min_size=0, max_size=5, unique=True))
+    names = draw(st.lists(st.sampled_from(sorted(VALID) + sorted(EXTRA_NAMES)), min_size=0, max_size=5, unique=True))
     for n in names:
         mode = draw(st.integers(0, 9))
-        if mode <= 1:
+        if mode <= 1 and n in VALID:
             v = draw(st.sampled_from(VALID[n]))
         elif mode <= 5:
-            v = draw(st.sampled_from(HOSTILE[n]))
+            v = draw(st.sampled_from(pool(n, valid=False)))
             hostile = True
         elif mode <= 8:
-            v = mutate(draw, draw(st.sampled_from(VALID[n] + HOSTILE[n])))
+            v = mutate(draw, draw(st.sampled_from(pool(n))))
             hostile = True
         else:
             v = draw(_noise)
@@ -495,9 +752,9 @@ def request_case(draw, for_apps=False):
     path = draw(_paths)
     if for_apps and draw(st.booleans()):
         # reach the file / route handlers: an existing target plus hostile validators
-        path = draw(st.sampled_from([b"/file.txt", b"/index.html", b"/dir/", b"/dir/a", b"/\xc3\xa9.txt", b"/", b"/i/42", b"/t/2021-03-07", b"/s/x", b"/a/b/c"]))
-        for name in draw(st.lists(st.sampled_from(["If-Modified-Since", "If-None-Match", "Range", "If-Range", "Host"]), min_size=1, max_size=3, unique=True)):
-            v = draw(st.sampled_from(HOSTILE[name] + VALID[name]))
+        path = draw(st.sampled_from([b"/file.txt", b"/index.html", b"/dir/", b"/dir/a", b"/\xc3\xa9.txt", b"/", b"/i/42", b"/t/2021-03-07", b"/s/x", b"/a/b/c", b"/dir", b"", b"/empty.txt", b"/d/1.5", b"/static/file.txt", b"/p/dir", b"/p/dir/", b"/r/i/42", b"/\xc3\xa9/x/file.txt", b"/static/\xe4\xb8\xad"]))
+        for name in draw(st.lists(st.sampled_from(["If-Modified-Since", "If-None-Match", "Range", "If-Range", "Host", "If-Match", "If-Unmodified-Since"]), min_size=1, max_size=3, unique=True)):
+            v = draw(st.sampled_from(pool(name) + (DATES if name == "If-Range" else [])))
             if draw(st.integers(0, 4)) == 0:
                 v = mutate(draw, v)
             v = v.replace("\r", "").replace("\n", "").strip(" \t")
@@ -519,7 +776,7 @@ def request_case(draw, for_apps=False):
 
 
 _ptext = st.one_of(
-    st.sampled_from([v for vs in HOSTILE.values() for v in vs] + [v for vs in VALID.values() for v in vs]),
+    st.sampled_from([v for vs in HOSTILE.values() for v in vs] + [v for vs in VALID.values() for v in vs] + [v for vs in EXTRA.values() for v in vs if len(v) < 200]),  # the long EXTRA values are swept, not drawn here (cost)
     _noise,
     st.text(max_size=10),
 )
@@ -571,37 +828,187 @@ def _clean(v: str) -> str:
     return v
 
 
+EXTRA_DATES = [
+    "Fri, 31 Dec 9999 23:59:59 -0030", "Fri, 31 Dec 9999 23:59:59 PST", "Fri, 31 Dec 9999 23:59:59 -2359", "Mon, 01 Jan 0001 00:00:00 +0001",
+    "Mon, 01 Jan 0001 00:00:00 +2359", "Mon, 01 Jan 0001 00:00:00 EST", "Fri, 31 Dec 9999 23:59:59 GMT", "Mon, 01 Jan 0001 00:00:00 GMT",
+    "Thu, 01 Jan 1970 00:00:00 +2400", "Sat, 29 Feb 2021 00:00:00 GMT", "Wed, 21 Oct 2015 07:28:60 GMT", "Wed, 21 Oct 2015 24:00:00 GMT",
+]
+# every date spelling of the dictionaries (used where a header may hold a date: If-Range next to Range, If-Unmodified-Since)
+DATES = list(dict.fromkeys(VALID["Date"] + HOSTILE["Date"] + HOSTILE["If-Modified-Since"] + EXTRA_DATES + [
+    "Fri, 31 Dec 9999 23:59:59 -0000", "Fri, 31 Dec 9999 23:59:59", "1 Jan 100 0:0:0", "1 Jan 100 0:0:0 +0000", "Thu, 01 Jan 1970 00:00:00 -0000", "Wed, 21 Oct 2015 07:28:00 +2359", "Wed, 21 Oct 2015 07:28:00 -2359",
+    "Wed, 21 Oct 2015 07:28:00 +0060", "Wed, 21 Oct 2015 07:28:00 +" + "0" * 400, "Wed, 21 Oct 2015 07:28:00 (comment) GMT", "Wed, 21 Oct 2015 07:28:00.5 GMT", "Wed, 21 Oct 2015 07:28 GMT", "2015-10-21T07:28:00Z",
+    "1445412480", "Wed, 21 Oct 15 07:28:00 GMT", "Wed, 21 Oct 68 07:28:00 GMT", "Wed, 21 Oct 69 07:28:00 GMT", "Wed, 21 Okt 2015 07:28:00 GMT", "Wed,21Oct2015 07:28:00GMT"]))
+
+
 def sweep_cases(for_apps: bool):
     """Every dictionary value of every header name on its own (the random sub-checks combine them; this
     makes sure each single value is met at every seed).  For the application sweep the request names an
     existing file / route so that validators and ranges are actually evaluated."""
-    extra_dates = [
-        "Fri, 31 Dec 9999 23:59:59 -0030", "Fri, 31 Dec 9999 23:59:59 PST", "Fri, 31 Dec 9999 23:59:59 -2359", "Mon, 01 Jan 0001 00:00:00 +0001",
-        "Mon, 01 Jan 0001 00:00:00 +2359", "Mon, 01 Jan 0001 00:00:00 EST", "Fri, 31 Dec 9999 23:59:59 GMT", "Mon, 01 Jan 0001 00:00:00 GMT",
-        "Thu, 01 Jan 1970 00:00:00 +2400", "Sat, 29 Feb 2021 00:00:00 GMT", "Wed, 21 Oct 2015 07:28:60 GMT", "Wed, 21 Oct 2015 24:00:00 GMT",
-    ]
-    for name in sorted(VALID):
-        values = list(VALID[name]) + list(HOSTILE[name])
+    for name in sorted(VALID) + sorted(EXTRA_NAMES):
+        values = pool(name)
         if name in ("Date", "If-Modified-Since", "If-Range"):
-            values += extra_dates
+            values += EXTRA_DATES
         for v in values:
             paths = [b"/"] if not for_apps else [b"/file.txt", b"/dir/", b"/i/42"]
+            if for_apps and name == "Range":
+                paths = paths + [b"/empty.txt"]  # size 0: every arithmetic on the size of the file meets its edge
             for path in paths:
                 rq = gw.areq(method="GET", headers=[[name, _clean(v)]], body=[b""], query=b"", path_bytes=path, path="/")
                 yield {"request": rq, "hostile": True, "labels": [f"sweep={name}"]}
 
 
+CHARSET_MULTIPART = (_CD + b'name="\\ud800"\r\n\r\n+2AA- \\udfff \\x00 \xff\xfe\r\n' + _CD + b'name="f+2AA-"; filename="\\udfff+2AA-\xff.txt"\r\nContent-Type: text/plain; charset=\\ud800\r\n\r\n\\ud800\r\n'
+                     + _CD + b'name="+AGE-"; filename="\\N{BOGUS}\\"\r\n\r\nx\r\n--b--')
+
+
 def body_sweep_cases():
     """Every dictionary body under its matching content type (and the urlencoded ones also as query string)."""
-    pairs = [("application/x-www-form-urlencoded", b) for b in URLENC_BODIES] + [("application/x-www-form-urlencoded; charset=utf-8", b) for b in URLENC_BODIES]
-    pairs += [('multipart/form-data; boundary="b"', b) for b in MULTIPART_BAD_BODIES] + [("application/json", b) for b in JSON_BAD_BODIES]
+    urlenc = URLENC_BODIES + BIG_URLENC_BODIES
+    pairs = [("application/x-www-form-urlencoded", b) for b in urlenc] + [("application/x-www-form-urlencoded; charset=utf-8", b) for b in urlenc]
+    pairs += [('multipart/form-data; boundary="b"', b) for b in MULTIPART_BAD_BODIES + BIG_MULTIPART_BODIES] + [("application/json", b) for b in JSON_BAD_BODIES]
+    # the same hostile numbers / part headers under a declared charset (the decoding step in front of the parser differs)
+    pairs += [("application/json; charset=utf-8", b) for b in JSON_BAD_BODIES[15:]] + [("application/json; charset=latin-1", b) for b in JSON_BAD_BODIES[15:]]
+    pairs += [("multipart/form-data; boundary=b; charset=ascii", b) for b in MULTIPART_BAD_BODIES[17:]]
+    # every codec name with bodies whose text decodes, under some of them, to lone surrogates / NUL / nothing at all (escape codecs, UTF-7)
+    for cs in CODEC_NAMES + ["unicode-escape", "raw-unicode-escape", "UTF-7", "utf-16-le", "utf-16-be", "utf-32-be", "utf-8-sig", "cp65001", "iso-2022-jp", "euc-kr", "gb18030", "cp1252", "koi8-r", "mac-roman", "U8", "L1", "646"]:
+        pairs += [(f"multipart/form-data; boundary=b; charset={cs}", CHARSET_MULTIPART), (f"application/json; charset={cs}", b'{"\\udfff": "\\ud800 +2AA- \\x00 \xff"}'), (f"application/json; charset={cs}", b"+ACIAIg-"),
+                  (f"application/x-www-form-urlencoded; charset={cs}", b"a=%ff&+2AA-=+2AA-&\\ud800=\\udfff&\xff=\xfe&c=+AGE")]
     for ctype, body in pairs:
         for chunks in ([body], [body[: len(body) // 2], body[len(body) // 2:]]):
             rq = gw.areq(method="POST", headers=[["Content-Type", ctype]], body=chunks, query=b"", path_bytes=b"/", path="/")
             yield {"request": rq, "hostile": True, "labels": ["body-sweep"]}
-    for q in URLENC_BODIES:
+    for q in urlenc:
         rq = gw.areq(method="GET", headers=[], body=[b""], query=q, path_bytes=b"/", path="/")
         yield {"request": rq, "hostile": True, "labels": ["query-sweep"]}
+
+
+_F = b"--b\r\nContent-Disposition: form-data; "
+CUT_BODIES = [
+    ("field+file", _F + b'name="a"\r\n\r\nv1\r\n' + _F + b'name="f"; filename="f.txt"\r\nContent-Type: text/plain\r\n\r\nDATA\r\n--b--\r\n'),
+    ("empty-values", _F + b'name="a"\r\n\r\n\r\n' + _F + b'name="f"; filename=""\r\n\r\n\r\n--b--'),
+    ("preamble-lf", b'pre\n--b\nContent-Disposition: form-data; name="a"\n\nv\n--b\nContent-Disposition: form-data; name="f"; filename="x"\n\nd\n--b--\nepi'),
+    ("cr-only", b'--b\rContent-Disposition: form-data; name="a"\r\rv\r--b--\r'),
+    ("near-delimiters", _F + b'name="a"\r\n\r\n\r\n--\r\n--b-\r\n-\r\n--bx\r\n' + _F + b'name="f"; filename="x"\r\n\r\n--b\r--b\n\r\n--b--'),
+    ("extended+bad-tail", _F + b"name=\"f\"; filename*=utf-8''a%cc%81.txt\r\n\r\nx\r\n" + _F + b'name="a"\r\n \tfolded\r\n\r\n1\r\n--b\r\nno-colon\r\n\r\ny\r\n--b--'),
+    ("latin1-names", _F + b'name="\xe9"; filename="\xff\xfe"\r\nContent-Type: \xe9/\xe9\r\n\r\n\xfd\r\n' + _F + b'name="\xc3\xa9"\r\n\r\n\xc3\xa9\xc3\r\n--b--'),
+]
+
+
+def cuts_cases(quick: bool):
+    """Chunk alignment is part of the input: the same bytes cut at every offset (a piece may end exactly after a header block, inside
+    the delimiter, between CR and LF, in front of the first byte), small fixed pieces, and the body ending early at every offset."""
+    mp = 'multipart/form-data; boundary="b"'
+    for tag, body in CUT_BODIES:
+        for ctype in (mp,) if quick else (mp, "multipart/form-data; boundary=b; charset=utf-16", "multipart/form-data; boundary=b; charset=nope"):
+            for i in range(len(body) + 1):
+                yield {"ctype": ctype, "chunks": [body[:i], body[i:]], "labels": [f"cut:{tag}"]}
+                yield {"ctype": ctype, "chunks": [body[:i]], "truncated": True, "labels": [f"truncated:{tag}"]}
+            for n in (1, 2, 3, 5):
+                yield {"ctype": ctype, "chunks": [body[k:k + n] for k in range(0, len(body), n)], "labels": [f"pieces:{tag}"]}
+                yield {"ctype": ctype, "chunks": [body[k:k + n] for k in range(0, len(body) * 2 // 3, n)], "truncated": True, "labels": [f"truncated-pieces:{tag}"]}
+            # empty messages between the pieces (ASGI servers may deliver them)
+            third = max(1, len(body) // 3)
+            yield {"ctype": ctype, "chunks": [b"", body[:third], b"", b"", body[third:], b""], "labels": [f"empty-messages:{tag}"]}
+    for ctype, accessor, body in (("application/json", "json", b'{"k": [1, 2.5, "\xc3\xa9"], "n": null}'), ("application/json; charset=utf-16", "json", '{"k": "é"}'.encode("utf-16")),
+                                  ("application/x-www-form-urlencoded", "form", b"a=1&b=%C3%A9&c=\xc3\xa9&d"), ("application/x-www-form-urlencoded; charset=utf-8", "form", b"a=1&b=%C3%A9&c=\xc3\xa9&d")):
+        for i in range(len(body) + 1):
+            yield {"ctype": ctype, "accessor": accessor, "chunks": [body[:i]], "truncated": True, "labels": [f"truncated:{accessor}"]}
+            yield {"ctype": ctype, "accessor": accessor, "chunks": [body[:i], body[i:]], "labels": [f"cut:{accessor}"]}
+
+
+def _own_validators():
+    """The validators of the served file.txt, computed from the file system (not asked from baize): entity tag per the documented
+    recipe (SHA-1 of "<mtime>-<size>"), Last-Modified as an HTTP date.  If the recipe ever differs they are merely near-misses."""
+    import hashlib
+    from email.utils import formatdate
+
+    st_ = os.stat(os.path.join(static_dir(), "file.txt"))
+    etag = hashlib.sha1(f"{st_.st_mtime}-{st_.st_size}".encode("ascii")).hexdigest()
+    return etag, formatdate(st_.st_mtime, usegmt=True), st_.st_mtime
+
+
+def pairs_cases():
+    """Headers that are only looked at in combination.  If-Range is ignored without Range; If-Modified-Since is ignored when
+    If-None-Match is present (also when it is present and empty?  that is for the code to decide - it must not raise)."""
+    from email.utils import formatdate
+
+    etag, lastmod, mtime = _own_validators()
+    file_apps = ["files", "pages", "fileresponse"]
+    if_ranges = pool("If-Range") + DATES + [
+        f'"{etag}"', f'W/"{etag}"', etag, f'"{etag}', f'{etag}"', f'"{etag}" ', f'"{etag}", "x"', f'"{etag.upper()}"', lastmod, lastmod.lower(), lastmod.replace("GMT", "+0000"), lastmod.replace("GMT", "UTC"),
+        lastmod + " junk", lastmod[5:], lastmod.replace(" GMT", ""), formatdate(mtime + 1, usegmt=True), formatdate(mtime - 1, usegmt=True), formatdate(mtime + 86400 * 365 * 3000, usegmt=True),
+        formatdate(mtime, localtime=False), lastmod.replace(",", ""), "\t" + lastmod]
+    ranges = ["bytes=0-4", "bytes=-5", "bytes=0-1,3-4", "bytes=0-", "bytes=5-4", "bytes=a-b", "bytes=99-", "bytes=" + "9" * 5000 + "-"]
+    short = [ir for ir in if_ranges if len(ir) < 40][::6] + [f'"{etag}"', lastmod]
+    for rng in ranges:
+        # the comparison of If-Range happens before the Range header is parsed: the full list with two ranges, a selection with the others
+        for ir in if_ranges if rng in ranges[:2] else short:
+            for method in ("GET", "HEAD") if rng in ranges[:3] else ("GET",):
+                for path in (b"/file.txt", b"/empty.txt") if rng == ranges[0] and method == "GET" else (b"/file.txt",):
+                    rq = gw.areq(method=method, headers=[["Range", rng], ["If-Range", _clean(ir)]], body=[b""], query=b"", path_bytes=path, path="/")
+                    yield {"request": rq, "hostile": True, "labels": ["pair=Range+If-Range"], "apps": file_apps}
+    inms = ["", f'"{etag}"', f'W/"{etag}"', etag, f'"x", "{etag}"', f',,"{etag}"', f'"{etag}",', f'W/"{etag}', f"W/{etag}", '"x"', "*", " ", ",", f'"{etag}" , W/', f'W/W/"{etag}"', f'"{etag}"' * 300, "\xff"]
+    imss = [lastmod, formatdate(mtime + 1, usegmt=True), formatdate(mtime - 1, usegmt=True), "", "x", "Wed, 21 Oct 2015 07:28:00 -" + "9" * 50, "Fri, 31 Dec 9999 23:59:59 -0100", "1 Jan 100 0:0:0", lastmod.replace(" GMT", ""),
+            "Wed, 21 Oct 2015 07:28:00 +9999999999", "Thu, 01 Jan 1970 00:00:00 GMT", "Wed, 31 Dec 1969 23:59:59 -0000"]
+    for inm in inms:
+        for ims in imss:
+            for method in ("GET", "HEAD"):
+                rq = gw.areq(method=method, headers=[["If-None-Match", _clean(inm)], ["If-Modified-Since", _clean(ims)]], body=[b""], query=b"", path_bytes=b"/file.txt", path="/")
+                yield {"request": rq, "hostile": True, "labels": ["pair=If-None-Match+If-Modified-Since"], "apps": file_apps}
+        # the matching validator next to a range request (304 vs 206 vs 416 is not this property's business - no exception is)
+        for rng in ranges:
+            rq = gw.areq(method="GET", headers=[["If-None-Match", _clean(inm)], ["Range", rng], ["If-Range", f'"{etag}"']], body=[b""], query=b"", path_bytes=b"/file.txt", path="/")
+            yield {"request": rq, "hostile": True, "labels": ["pair=If-None-Match+Range"], "apps": file_apps}
+    for name in sorted(EXTRA_NAMES):
+        for v in pool(name) + ([f'"{etag}"', f'W/"{etag}"'] if name == "If-Match" else DATES + [lastmod]):
+            for other in (["If-None-Match", f'"{etag}"'], ["If-Modified-Since", lastmod], ["Range", "bytes=0-4"]):
+                rq = gw.areq(method="GET", headers=[[name, _clean(v)], other], body=[b""], query=b"", path_bytes=b"/file.txt", path="/")
+                yield {"request": rq, "hostile": True, "labels": [f"pair={name}+{other[0]}"], "apps": file_apps}
+
+
+QUERIES = [b"&" * 1500, b"a=1&" * 1200, b";" * 1500, b"", b"a=1", b"a=1&a=2", b"\xff", b"a=\xff&\xc3=1", b"%", b"%zz=%", b"=", b"&&&", b"a=" + b"9" * 5000, b"a" * 3000, b"\x00", b"a=b;c=d", b"?", b"#", b"a[]=1&a[]=2",
+           b"a=%ff", b"\xc3\xa9=\xc3\xa9", b"//x", b"http://x/?y", b"%00", b"a=%u00e9", b"\xe9"]
+
+
+def path_sweep_cases():
+    """Every dictionary path on its own, and the directory URLs without the final slash (the Pages redirect rebuilds the URL from the
+    path, the query string and the Host header) with every dictionary query string and Host value."""
+    for path in PATHS + PATHS_EXTRA:
+        rq = gw.areq(method="GET", headers=[], body=[b""], query=b"", path_bytes=path, path="/")
+        yield {"request": rq, "hostile": True, "labels": ["path-sweep"]}
+    for path in (b"/dir", b"", b"/dir/../dir", b"/dir/up"):
+        for q in QUERIES:
+            rq = gw.areq(method="GET", headers=[], body=[b""], query=q, path_bytes=path, path="/")
+            yield {"request": rq, "hostile": True, "labels": ["dir-redirect x query"], "apps": ["pages", "files", "subpaths"]}
+        for host in pool("Host"):
+            for q in (b"", b"a=\xff"):
+                rq = gw.areq(method="GET", headers=[["Host", _clean(host)]], body=[b""], query=q, path_bytes=path, path="/")
+                yield {"request": rq, "hostile": True, "labels": ["dir-redirect x Host"], "apps": ["pages", "files", "hosts"]}
+    # the composed application: every dictionary path below every mount, the redirecting directory URLs below the mounts
+    for prefix in (b"/static", b"/p", b"/r", b"/\xc3\xa9/x"):
+        for path in PATHS + PATHS_EXTRA:
+            if path.startswith(b"/"):
+                rq = gw.areq(method="GET", headers=[], body=[b""], query=b"", path_bytes=prefix + path, path="/")
+                yield {"request": rq, "hostile": True, "labels": ["nested x path"], "apps": ["nested"]}
+    for path in (b"/p/dir", b"/p", b"/\xc3\xa9/x/dir", b"/\xc3\xa9/x", b"/static/dir", b"/r"):
+        for q in QUERIES:
+            for host in (None, "[::1]:80"):
+                rq = gw.areq(method="GET", headers=[["Host", host]] if host else [], body=[b""], query=q, path_bytes=path, path="/")
+                yield {"request": rq, "hostile": True, "labels": ["nested redirect x query x Host"], "apps": ["nested"]}
+    # environ keys a server may leave out (PEP 3333: QUERY_STRING "may be empty or absent"; SCRIPT_NAME / PATH_INFO when empty; no client address)
+    omits = (["QUERY_STRING"], ["QUERY_STRING", "SCRIPT_NAME"], ["QUERY_STRING", "SCRIPT_NAME", "PATH_INFO"], ["SCRIPT_NAME", "PATH_INFO"], ["REMOTE_ADDR", "REMOTE_PORT"],
+             ["QUERY_STRING", "SCRIPT_NAME", "PATH_INFO", "CONTENT_TYPE", "CONTENT_LENGTH", "REMOTE_ADDR", "REMOTE_PORT"])
+    for omit in omits:
+        for path in (b"/", b"", b"/file.txt", b"/dir", b"/dir/", b"/i/42", b"/s/x", b"/p/dir", b"/\xc3\xa9/x", b"/static/file.txt", b"*"):
+            for headers in ([], [["Host", "example.com:8080"], ["Referer", "/x"], ["Cookie", "a=1"]], [["Content-Type", ""], ["Content-Length", ""]]):
+                for q in (b"", b"a=1"):
+                    rq = gw.areq(method="GET", headers=headers, body=[b""], query=q, path_bytes=path, path="/")
+                    yield {"request": rq, "hostile": True, "labels": ["environ without optional keys"], "omit_environ": omit}
+    # the typed routes and mounts with a hostile query / Host next to a matching path
+    for path in (b"/i/42", b"/d/1.5", b"/t/2021-03-07", b"/u/00000000-0000-0000-0000-000000000000", b"/1-2021-02-03.5", b"/s/x", b"/\xc3\xa9/x", b"/file.txt"):
+        for q in QUERIES[:19:3] + QUERIES[19:]:
+            rq = gw.areq(method="GET", headers=[["Host", "[::1]:80"]], body=[b""], query=q, path_bytes=path, path="/")
+            yield {"request": rq, "hostile": True, "labels": ["route x query"]}
 
 
 def run(rec, only=None):
@@ -612,6 +1019,10 @@ def run(rec, only=None):
     core.drive_cases(rec, "sweep", sweep_cases(False), oracle_request)
     core.drive_cases(rec, "sweep_apps", sweep_cases(True), oracle_apps)
     rec.exhaustive["sweep"] = rec.exhaustive["sweep_apps"] = True
+    core.drive_cases(rec, "cuts", cuts_cases(quick), oracle_cuts, sample=False)
+    core.drive_cases(rec, "pairs", pairs_cases(), oracle_apps)
+    core.drive_cases(rec, "path_sweep", path_sweep_cases(), oracle_both)
+    rec.exhaustive["cuts"] = rec.exhaustive["pairs"] = rec.exhaustive["path_sweep"] = True
     core.drive_hypothesis(rec, "request", request_case(), oracle_request, 3000 if quick else 60000, max_buckets=mb)
     core.drive_hypothesis(rec, "apps", request_case(True), oracle_apps, 1500 if quick else 30000, seed_offset=1, max_buckets=mb)
     core.drive_hypothesis(rec, "parsers", parser_case(), oracle_parsers, 3000 if quick else 60000, seed_offset=2, max_buckets=mb)
